@@ -36,6 +36,9 @@ SPEC = {
         {"name": "TestShapes", "quick": 320, "thorough": 32000, "shards_quick": 8, "shards_thorough": 16, "timeout": 1800},
         {"name": "TestSequences", "quick": 6000, "thorough": 600000, "shards_quick": 4, "shards_thorough": 16, "timeout": 1800},
         {"name": "TestConfigPath", "quick": 3000, "thorough": 300000, "shards_quick": 2, "shards_thorough": 16, "timeout": 1800},
+        {"name": "TestConcurrentFactory", "quick": 240, "thorough": 24000, "shards_quick": 4, "shards_thorough": 16, "timeout": 1800,
+         "race": True, "replay_repeat": 20},
+        {"name": "TestRegisterHelpers", "quick": 1800, "thorough": 300000, "shards_quick": 2, "shards_thorough": 16, "timeout": 1800},
         {"name": "TestIllegalRegistrations", "quick": 3000, "thorough": 60000, "shards_quick": 2, "shards_thorough": 8, "timeout": 1800},
     ],
     "rule": ("TestShapes: every case registers ALL 108 supported constructor shapes ({returns component | returns factory} x {no config | "
@@ -51,10 +54,41 @@ SPEC = {
              "wrong type, validation), failing constructors / factories, 1-5 products; 8 of the types ({component, factory} x {struct, "
              "pointer config} x {default-config function, none} x error results) have a config whose validate rules (`s` required, "
              "`n` min=1) the registered default - or the zero config - does not pass, and are created from a section holding only the "
-             "type key, from one that sets what the default lacks, and from any subset of the options. TestIllegalRegistrations: 48 registrations the "
+             "type key, from one that sets what the default lacks, and from any subset of the options. TestConcurrentFactory (race-detector build in both tiers): one COMPONENT constructor "
+             "taking a config (struct / pointer x default func / none x error result x result type), 1-2 factories made from it with "
+             "different settings (func() (I, error) or func() I); after 0-5 sequential products every factory is called from 2-6 "
+             "goroutines at once, 10-120 times each (3 of 4 cases: fillConf lets the goroutines of a factory leave it together). "
+             "Every fillConf call stamps the configuration it decodes with its own number: fillConf / constructor / product counts "
+             "are equal, every decoded configuration reached exactly one constructor (pointer configs: as the very object that was "
+             "filled), products of a factory hold default overlaid by THAT factory's settings, and what a product writes into its own "
+             "configuration after construction (a scalar while the others still run, strings / slice elements / map entries once they "
+             "are done) shows in no other product; a race report of the detector is a violation. TestRegisterHelpers: the six "
+             "per-kind helpers of core/register (Provider, Limiter, Gun, Aggregator, DataSource, DataSink) each register components "
+             "of their core interface in six constructor shapes ({component, factory} x {struct, pointer config} with a "
+             "default-config function - a different default per kind -, one component and one factory shape without), created by "
+             "name as component / func() (I, error) / func() I, directly (plugin.New / NewFactory + overlaying fillConf) and "
+             "through the decoder and plugin hooks, from any subset of the options, 1-3 products: configured with the registered "
+             "default of that kind overlaid by the settings (unset options keep the default), constructor / registered-factory "
+             "call counts as for plugin.Register. TestIllegalRegistrations: 48 registrations the "
              "package documents as illegal. Non-trivial = >= 2 products from one factory or an error path was taken (illegal "
              "registrations: always); distinct = hash of the case."),
     "floors": {
+        "TestConcurrentFactory/long_living_factory": 0.45, "TestConcurrentFactory/concurrent_first_products": 0.06,
+        "TestConcurrentFactory/conf_struct": 0.25, "TestConcurrentFactory/conf_ptr": 0.25, "TestConcurrentFactory/default_func": 0.25,
+        "TestConcurrentFactory/default_none": 0.25, "TestConcurrentFactory/form_factory_err": 0.25, "TestConcurrentFactory/form_factory_noerr": 0.25,
+        "TestConcurrentFactory/ctor_has_error_result": 0.25, "TestConcurrentFactory/aligned_calls": 0.4,
+        "TestConcurrentFactory/factories_2": 0.15, "TestConcurrentFactory/goroutines_ge_4": 0.3,
+        "TestConcurrentFactory/config_with_slice_or_map": 0.3,
+        "TestRegisterHelpers/unset_option_keeps_default": 0.3, "TestRegisterHelpers/partial_overlay_of_default": 0.35,
+        "TestRegisterHelpers/path:direct": 0.25, "TestRegisterHelpers/path:decoder": 0.25, "TestRegisterHelpers/form:component": 0.15,
+        "TestRegisterHelpers/form:factory_err": 0.15, "TestRegisterHelpers/form:factory_noerr": 0.15,
+        "TestRegisterHelpers/factory_constructor": 0.2, "TestRegisterHelpers/no_settings_at_all": 0.02,
+        "TestRegisterHelpers/unset_option_keeps_default:Provider": 0.035, "TestRegisterHelpers/helper_without_default:Provider": 0.008,
+        "TestRegisterHelpers/unset_option_keeps_default:Limiter": 0.035, "TestRegisterHelpers/helper_without_default:Limiter": 0.008,
+        "TestRegisterHelpers/unset_option_keeps_default:Gun": 0.035, "TestRegisterHelpers/helper_without_default:Gun": 0.008,
+        "TestRegisterHelpers/unset_option_keeps_default:Aggregator": 0.035, "TestRegisterHelpers/helper_without_default:Aggregator": 0.008,
+        "TestRegisterHelpers/unset_option_keeps_default:DataSource": 0.035, "TestRegisterHelpers/helper_without_default:DataSource": 0.008,
+        "TestRegisterHelpers/unset_option_keeps_default:DataSink": 0.035, "TestRegisterHelpers/helper_without_default:DataSink": 0.008,
         "TestShapes/factory_with_2plus_products": 0.5, "TestShapes/error_as_result": 0.38, "TestShapes/error_as_panic": 0.3,
         "TestShapes/fillconf_error": 0.18, "TestShapes/constructor_error": 0.2, "TestShapes/registered_factory_error": 0.2,
         "TestShapes/newfactory_error": 0.19, "TestShapes/config_mutated_by_product": 0.35, "TestShapes/independence_checked": 0.5,
@@ -90,7 +124,11 @@ SPEC = {
                  "configs are pointer-distinct and unaffected by other products scribbling over their slices/maps; for factory "
                  "constructors fillConf and the constructor run once per NewFactory and the registered factory once per product; other "
                  "registrations in the registry are never touched; unknown names are an error result. Illegal registrations must panic "
-                 "at Register and leave earlier registrations working. The same is checked end-to-end through config.Decode + pluginconfig hooks, "
+                 "at Register and leave earlier registrations working. Factories made from component constructors are also called from "
+                 "several goroutines at once over a long life (race-detector build): each decoded configuration reaches exactly one "
+                 "product and later writes of a product into its configuration show nowhere else. The per-kind helpers of core/register "
+                 "are exercised with default-config functions for all six component kinds, directly and through the decoder: unset "
+                 "options keep the registered default. The same is checked end-to-end through config.Decode + pluginconfig hooks, "
                  "where a registered default that breaks the config's validate rules and is not repaired by the section (in particular a "
                  "section holding only the type key) is a config error that must reach the caller like any other, and a section that "
                  "repairs it yields components configured with default overlaid by the section."),
@@ -102,6 +140,8 @@ SPEC = {
                  "by message, because mapstructure flattens errors to strings."),
     },
     "assumptions": [
+        "factories of one registration may be called from several goroutines at once (the engine starts the instances of a pool - one gun factory call each, one schedule factory call with rps-per-instance - in goroutines of their own)",
+        "the helpers covered are the exported functions of core/register at the time of writing: Provider, Limiter, Gun, Aggregator, DataSource, DataSink (RegisterPtr is what TestConfigPath registers through)",
         "a failed creation does not poison a factory: later calls of the same factory are judged by the same model",
         "the component's observable config is what the recording constructor received (struct configs are copied by value by Go itself)",
     ],
